@@ -66,6 +66,8 @@ SPECS = {
     # user wrappers through the public constructors
     "user_logistic": dict(p=lambda r: (U(r, -2, 2), U(r, 0.3, 2)), ref=lambda a: st.logistic(a[0], a[1]), kind="c", user="tfp"),
     "user_gumbel": dict(p=lambda r: (U(r, -2, 2), U(r, 0.3, 2)), ref=lambda a: st.gumbel_r(a[0], a[1]), kind="c", user="custom"),
+    # a user wrapper whose constructor closes over non-scalar arrays (fixed mixture components)
+    "user_mixture": dict(p=lambda r: (U(r, -2, 2), U(r, 0.4, 2)), ref=lambda a: _Mix(a[0], a[1]), kind="c", user="tfp_closure"),
 }
 EXPORTED = [n for n in SPECS if not n.startswith("user_")]
 assert len(EXPORTED) == 24
@@ -78,6 +80,36 @@ def _mvn_params(r):
     return ([U(r, -2, 2) for _ in range(k)], np.round(cov, 4).tolist())
 
 
+MIX_LOCS, MIX_SCALES, MIX_W = [-1.5, 0.5, 2.0], [0.5, 1.0, 0.7], [0.2, 0.5, 0.3]
+
+
+class _Mix:
+    """Reference for user_mixture(shift, scale): sum_k w_k Normal(shift + scale*loc_k, scale*sc_k)."""
+
+    def __init__(self, shift, scale):
+        self.mu = shift + scale * np.asarray(MIX_LOCS)
+        self.sd = scale * np.asarray(MIX_SCALES)
+        self.w = np.asarray(MIX_W)
+
+    def cdf(self, x):
+        x = np.asarray(x, dtype=np.float64)
+        return np.sum(self.w * st.norm.cdf((x[..., None] - self.mu) / self.sd), axis=-1)
+
+    def logpdf(self, x):
+        x = np.asarray(x, dtype=np.float64)
+        return sp.logsumexp(np.log(self.w) + st.norm.logpdf(x[..., None], self.mu, self.sd), axis=-1)
+
+    def ppf(self, q):
+        lo, hi = float(np.min(self.mu - 12 * self.sd)), float(np.max(self.mu + 12 * self.sd))
+        for _ in range(200):
+            mid = 0.5 * (lo + hi)
+            if self.cdf(mid) < q:
+                lo = mid
+            else:
+                hi = mid
+        return 0.5 * (lo + hi)
+
+
 _USER = {}
 
 
@@ -86,6 +118,19 @@ def dist_obj(name):
         if name not in _USER:
             from tensorflow_probability.substrates import jax as tfp
             _USER[name] = genjax.tfp_distribution(tfp.distributions.Logistic, name="Logistic")
+        return _USER[name]
+    if name == "user_mixture":
+        if name not in _USER:
+            from tensorflow_probability.substrates import jax as tfp
+            tfd = tfp.distributions
+            locs, scs, logw = jnp.asarray(MIX_LOCS), jnp.asarray(MIX_SCALES), jnp.log(jnp.asarray(MIX_W))
+
+            def ctor(shift, scale):
+                shift, scale = jnp.asarray(shift), jnp.asarray(scale)
+                return tfd.MixtureSameFamily(tfd.Categorical(logits=logw),
+                                             tfd.Normal(shift[..., None] + scale[..., None] * locs, scale[..., None] * scs))
+
+            _USER[name] = genjax.tfp_distribution(ctor, name="Mixture")
         return _USER[name]
     if name == "user_gumbel":
         if name not in _USER:
@@ -289,19 +334,27 @@ def normalisation(case):
     ja = jargs(a)
     if kind == "c":
         r = spec["ref"](a)
-        lo, hi = r.ppf(1e-6), r.ppf(1 - 1e-6)
-        if name == "cauchy":
-            lo, hi = r.ppf(2e-4), r.ppf(1 - 2e-4)
-        if name in ("student_t",):
-            lo, hi = r.ppf(1e-5), r.ppf(1 - 1e-5)
-        # composite Gauss-Legendre on 64 panels (smooth integrands; end points excluded)
+        qlo = 2e-4 if name == "cauchy" else (1e-5 if name == "student_t" else 1e-6)
+        # composite Gauss-Legendre; panel edges are reference quantiles spaced logarithmically in the tail
+        # probability, so that heavy tails (inverse_gamma, student_t, cauchy, log_normal) are resolved:
+        # equal-width panels over [ppf(1e-6), ppf(1-1e-6)] put the whole bulk into one panel (10% error
+        # for inverse_gamma(1.5, 2.8), found by the thorough soak - an oracle error, see DESIGN 11)
+        tq = np.logspace(np.log10(qlo), np.log10(0.5), 40)
+        qs = np.unique(np.concatenate([tq, 1.0 - tq]))
+        edges = np.unique(np.asarray([float(r.ppf(q)) for q in qs]))
+        lo, hi = edges[0], edges[-1]
         xg, wg = np.polynomial.legendre.leggauss(24)
-        edges = np.linspace(lo, hi, 65)
         xs = np.concatenate([(e1 - e0) / 2 * xg + (e1 + e0) / 2 for e0, e1 in zip(edges[:-1], edges[1:])])
         ws = np.concatenate([(e1 - e0) / 2 * wg for e0, e1 in zip(edges[:-1], edges[1:])])
-        lp = np.asarray(jax.vmap(lambda v: d.logpdf(v, *ja))(jnp.asarray(xs, dtype=jnp.float32)), dtype=np.float64)
+        # float32 nodes must stay inside the open support (a node that rounds onto the boundary of a
+        # density that diverges there integrably, e.g. beta(a, b<1) at 1, would evaluate to inf)
+        s_lo, s_hi = r.support() if hasattr(r, "support") else (-np.inf, np.inf)
+        x32 = xs.astype(np.float32)
+        x32 = np.where(x32 >= np.float32(s_hi), np.nextafter(np.float32(s_hi), np.float32(-np.inf)), x32)
+        x32 = np.where(x32 <= np.float32(s_lo), np.nextafter(np.float32(s_lo), np.float32(np.inf)), x32)
+        lp = np.asarray(jax.vmap(lambda v: d.logpdf(v, *ja))(jnp.asarray(x32, dtype=jnp.float32)), dtype=np.float64)
         cover = r.cdf(hi) - r.cdf(lo)
-        tol = 3e-3 if name not in ("uniform", "beta", "gamma", "weibull", "chi2") else 2e-2
+        tol = 5e-4 if name not in ("uniform", "beta", "gamma", "weibull", "chi2") else 2e-3
         return float(np.sum(ws * np.exp(lp))) / cover, tol
     if kind == "d":
         sup = spec["sup"](a)
